@@ -105,6 +105,31 @@ theorem sk_addConn_st (s : St) (c : Conn) (hq : c.queries = []) (hu : c.unlinked
   unfold Conn.sk
   rw [hq, hu]
 
+theorem sk_sqOpenA (s : St) (q : Query) (srv : Server) : (sqOpenA s q srv).sk = s.sk.addSock := by
+  unfold sqOpenA
+  simp only
+  rw [sk_modSock]
+  · simp only [sk_slog, sk_emit]
+    exact sk_addSock_st s _ _ rfl
+  · intro; rfl
+
+theorem sk_sqOpenC (s : St) (q : Query) (srv : Server) (fd : Nat) : (sqOpenC s q srv fd).2.sk = s.sk := by
+  unfold sqOpenC
+  simp only
+  split <;> rfl
+
+theorem sk_sqClose (s : St) (fd : Nat) : (sqClose s fd).sk = s.sk := by
+  unfold sqClose
+  simp only [sk_slog, sk_emit]
+  rw [sk_modSock]; intro; rfl
+
+theorem sk_sqOpenD (s : St) (q : Query) (srv : Server) (fd : Nat) :
+    (sqOpenD s q srv fd).sk = s.sk.addConn fd srv.id q.usingTcp := by
+  unfold sqOpenD
+  simp only
+  rw [sk_notify]
+  exact sk_addConn_st s { fd := fd, srv := srv.id, tcp := q.usingTcp, selfIp := s.selfVariant } rfl rfl
+
 /-- result of `ares_open_connection`: an ordinary step; on success the new connection is linked -/
 theorem sqOpen_ok {d} {s : St} (q : Query) (srv : Server) (hw : Wf s) (hd : DebtOk none d s.sk) :
     Mid d s (sqOpen s q srv).2 ∧ ∀ fd, (sqOpen s q srv).1 = .ok fd → (sqOpen s q srv).2.sk.hasConn fd false := by
@@ -117,63 +142,25 @@ theorem sqOpen_ok {d} {s : St} (q : Query) (srv : Server) (hw : Wf s) (hd : Debt
   have hnf : s0.nextFd = s.sk.nextFd := by rw [← hsk0]; rfl
   split
   · exact ⟨Mid.of_sk_eq hw hd (by simp [hsk0]), fun fd h => by cases h⟩
-  · -- the socket exists from here on
-    have hskA := sk_addSock_st s0 (if q.usingTcp = true then [] else s0.pendingWl)
-      { fd := s0.nextFd, tcp := q.usingTcp, wl := if q.usingTcp = true then s0.pendingWl else [] } rfl
+  · have hskA := sk_sqOpenA s0 q srv
     rw [hsk0] at hskA
-    generalize ({ s0 with nextFd := s0.nextFd + 1, pendingWl := (if q.usingTcp = true then [] else s0.pendingWl), socks := s0.socks ++ [({ fd := s0.nextFd, tcp := q.usingTcp, wl := (if q.usingTcp = true then s0.pendingWl else []) } : VSock)] } : St) = sA
-      at hskA ⊢
+    generalize sqOpenA s0 q srv = sA at hskA ⊢
     have hmA : ∀ s' : St, s'.sk = sA.sk → Mid d s s' := fun s' h' =>
       ⟨by unfold Wf; rw [h', hskA]; exact wf_addSock hw, by rw [h', hskA]; exact debt_addSock hd,
        by rw [h', hskA]; exact step_addSock⟩
-    have hskB : ∀ (e : String) (f : VSock → VSock), (∀ v, (f v).fd = v.fd) →
-        (((sA.emit e).slog s0.nextFd "open").modSock s0.nextFd f).sk = sA.sk := by
-      intro e f hf; rw [sk_modSock _ _ _ hf]; rfl
-    generalize hB : (((sA.emit s!"sock({s0.nextFd},{if q.usingTcp = true then "tcp" else "udp"},4)").slog s0.nextFd "open").modSock
-        s0.nextFd fun v => { v with peer := srv.addr, port := if q.usingTcp = true then srv.tcpPort else srv.udpPort }) = sB
-    have hskB' : sB.sk = sA.sk := by rw [← hB]; exact hskB _ _ (fun _ => rfl)
-    have hsk1 := sk_fault sB "connect"
-    generalize sB.fault "connect" = r1 at hsk1 ⊢
-    obtain ⟨f1, s1⟩ := r1
-    simp only at hsk1 ⊢
-    have hskC : (match f1 with
-        | some _ => (s1.slog s0.nextFd "connect").emit
-            s!"conn!({s0.nextFd},{srv.addr}#{if q.usingTcp = true then srv.tcpPort else srv.udpPort})"
-        | none => (s1.slog s0.nextFd "connect").emit
-            s!"conn({s0.nextFd},{srv.addr}#{if q.usingTcp = true then srv.tcpPort else srv.udpPort})").sk = sA.sk := by
-      split <;> simp [hsk1, hskB']
-    generalize (match f1 with
-        | some _ => (s1.slog s0.nextFd "connect").emit
-            s!"conn!({s0.nextFd},{srv.addr}#{if q.usingTcp = true then srv.tcpPort else srv.udpPort})"
-        | none => (s1.slog s0.nextFd "connect").emit
-            s!"conn({s0.nextFd},{srv.addr}#{if q.usingTcp = true then srv.tcpPort else srv.udpPort})") = sC at hskC ⊢
-    have closeSk : ∀ sX : St, sX.sk = sA.sk →
-        (((sX.modSock s0.nextFd fun v => { v with isOpen := false }).emit s!"close({s0.nextFd})").slog
-          s0.nextFd "close").sk = sA.sk := by
-      intro sX hX
-      simp only [sk_slog, sk_emit]
-      rw [sk_modSock]
-      · exact hX
-      · intro; rfl
-    split
-    · exact ⟨hmA _ (closeSk sC hskC), fun fd h => by cases h⟩
-    · have hsk2 := sk_fault sC "getsockname"
+    -- the tail: getsockname, then the connection object
+    have tail : ∀ sC : St, sC.sk = sA.sk → Mid d s (sqOpenT sC q srv s0.nextFd).2 ∧
+        ∀ fd, (sqOpenT sC q srv s0.nextFd).1 = .ok fd → (sqOpenT sC q srv s0.nextFd).2.sk.hasConn fd false := by
+      intro sC hskC
+      unfold sqOpenT
+      have hsk2 := sk_fault sC "getsockname"
       generalize sC.fault "getsockname" = r2 at hsk2 ⊢
       obtain ⟨f2, s2⟩ := r2
       simp only at hsk2 ⊢
       split
-      · exact ⟨hmA _ (closeSk s2 (hsk2.trans hskC)), fun fd h => by cases h⟩
-      · -- success
-        have hskD := sk_addConn_st s2
-          { fd := s0.nextFd, srv := srv.id, tcp := q.usingTcp, selfIp := s2.selfVariant } rfl rfl
-        simp only at hskD
-        rw [hsk2, hskC, hskA] at hskD
-        have hfin : ((({ s2 with conns := s2.conns ++ [({ fd := s0.nextFd, srv := srv.id, tcp := q.usingTcp,
-              selfIp := s2.selfVariant } : Conn)] } : St).modServer srv.id fun v =>
-            { v with conns := if q.usingTcp = true then v.conns ++ [s0.nextFd] else s0.nextFd :: v.conns,
-                     tcpConn := if q.usingTcp = true then some s0.nextFd else v.tcpConn }).notify s0.nextFd true
-              q.usingTcp).sk = s.sk.addSock.addConn s0.nextFd srv.id q.usingTcp := by
-          rw [sk_notify]; exact hskD
+      · exact ⟨hmA _ ((sk_sqClose s2 _).trans (hsk2.trans hskC)), fun fd h => by cases h⟩
+      · have hfin : (sqOpenD s2 q srv s0.nextFd).sk = s.sk.addSock.addConn s0.nextFd srv.id q.usingTcp := by
+          rw [sk_sqOpenD, hsk2, hskC, hskA]
         have hwA : WfS s.sk.addSock none := wf_addSock hw
         have hwD : WfS (s.sk.addSock.addConn s0.nextFd srv.id q.usingTcp) none := by
           refine wf_addConn hwA ?_ ?_ ?_
@@ -188,5 +175,141 @@ theorem sqOpen_ok {d} {s : St} (q : Query) (srv : Server) (hw : Wf s) (hd : Debt
           by rw [hfin]; exact step_addSock.trans step_addConn⟩, fun fd h => ?_⟩
         have : fd = s0.nextFd := by injection h with h; exact h.symm
         rw [this, hfin]; exact hasConn_addConn
+    have hskC := sk_sqOpenC sA q srv s0.nextFd
+    generalize sqOpenC sA q srv s0.nextFd = rC at hskC ⊢
+    obtain ⟨f1, sC⟩ := rC
+    simp only at hskC ⊢
+    cases f1 with
+    | none =>
+      simp only [Bool.false_eq_true, ↓reduceIte]
+      exact tail sC hskC
+    | some e1 =>
+      simp only
+      split
+      · exact ⟨hmA _ ((sk_sqClose sC _).trans hskC), fun fd h => by cases h⟩
+      · exact tail sC hskC
+
+/-! ### the write -/
+
+theorem sk_ite_pop8 (s : St) (p : Prop) [Decidable p] : (if p then s.pop8 else s).sk = s.sk := by
+  split
+  · exact sk_pop8 s
+  · rfl
+
+theorem sk_sqPrep (s : St) (q : Query) (srv : Server) (key fd : Nat) : (sqPrep s q srv key fd).1.sk = s.sk := by
+  unfold sqPrep
+  simp only
+  rw [sk_set_writeLog, sk_modConn_same, sk_modQuery_same, sk_modServer_same]
+  · exact sk_ite_pop8 s _
+  all_goals (intro; rfl)
+
+theorem sqPrep_q (s : St) (q : Query) (srv : Server) (key fd : Nat) :
+    (sqPrep s q srv key fd).2.qid = q.qid ∧ (sqPrep s q srv key fd).2.usingTcp = q.usingTcp := ⟨rfl, rfl⟩
+
+/-- the write leaves the skeleton alone -/
+theorem sqWrite_sk {go} (hgo : GoOk go) {d} {s : St} {fd : Nat} (hw : Wf s) (hd : DebtOk none d s.sk)
+    (hl : s.sk.liveConn fd) : (sqWrite go s fd).2.outOfFuel = true ∨ (sqWrite go s fd).2.sk = s.sk := by
+  unfold sqWrite
+  simp only
+  split
+  · exact Or.inr rfl
+  · split
+    · exact Or.inr rfl
+    · rcases hgo.2 d (.flush fd) s ⟨hw, hl, hd⟩ with hoof | hg
+      · exact Or.inl hoof
+      · exact Or.inr hg.post
+
+/-! ### the query is put on the connection -/
+
+theorem sk_attach_st (s' : St) (key fd : Nat) (oldc : Option Nat) (f1 f3 : Conn → Conn) (f2 : Query → Query)
+    (h1 : ∀ c, (f1 c).sk = { c.sk with queries := c.sk.queries.erase key })
+    (h2 : ∀ q, (f2 q).sk = { q.sk with conn := some fd })
+    (h3 : ∀ c, (f3 c).sk = { c.sk with queries := c.sk.queries.erase key ++ [key] }) :
+    (({ ((match oldc with
+          | some old => ({ s' with byTimeout := s'.byTimeout.erase key } : St).modConn old f1
+          | none => { s' with byTimeout := s'.byTimeout.erase key }).modQuery key f2) with
+        pendingOrder := s'.pendingOrder.erase key ++ [key] } : St).modConn fd f3).sk =
+      s'.sk.attach key fd oldc := by
+  rw [sk_modConn _ _ _ (fun c => { c with queries := c.queries.erase key ++ [key] }) h3]
+  unfold Sk.attach
+  congr 1
+  have e1 : ∀ (X : St) (po : List Nat), ({ X with pendingOrder := po } : St).sk = { X.sk with pendingOrder := po } :=
+    fun _ _ => rfl
+  rw [e1, sk_modQuery _ _ _ (fun e => { e with conn := some fd }) h2]
+  unfold Sk.attach2
+  cases oldc with
+  | none => rfl
+  | some old =>
+    simp only
+    rw [sk_modConn _ _ _ (fun c => { c with queries := c.queries.erase key }) h1]
+    rfl
+
+theorem sk_sqAttachSt (s : St) (q : Query) (srv : Server) (key fd : Nat) :
+    (sqAttachSt s q srv key fd).sk = s.sk.attach key fd q.conn := by
+  unfold sqAttachSt
+  simp only
+  -- the deadline computation only draws a random number
+  generalize hdl : (if q.tryCount / s.servers.length > 0 then _ else _ : Deadline × St) = r
+  have hr : r.2.sk = s.sk := by
+    rw [← hdl]
+    split
+    · exact sk_draw2 s
+    · rfl
+  obtain ⟨dl, s'⟩ := r
+  simp only at hr ⊢
+  rw [← hr]
+  cases q.conn with
+  | none =>
+    exact sk_attach_st s' key fd none (fun c => { c with queries := c.queries.erase key })
+      (fun c => { c with queries := c.queries.erase key ++ [key], total := c.total + 1 })
+      (fun q0 => { q0 with ts := s'.now, deadline := dl, conn := some fd, inConnList := true })
+      (fun _ => rfl) (fun _ => rfl) (fun _ => rfl)
+  | some old =>
+    exact sk_attach_st s' key fd (some old) (fun c => { c with queries := c.queries.erase key })
+      (fun c => { c with queries := c.queries.erase key ++ [key], total := c.total + 1 })
+      (fun q0 => { q0 with ts := s'.now, deadline := dl, conn := some fd, inConnList := true })
+      (fun _ => rfl) (fun _ => rfl) (fun _ => rfl)
+
+/-! ### opening a connection does not touch the qid table -/
+
+theorem byQid_notify (s : St) (fd : Nat) (r w : Bool) : (s.notify fd r w).byQid = s.byQid := by
+  unfold St.notify
+  split
+  · rfl
+  · simp only
+    split <;> rfl
+
+theorem byQid_sqOpenT (s : St) (q : Query) (srv : Server) (fd : Nat) : (sqOpenT s q srv fd).2.byQid = s.byQid := by
+  unfold sqOpenT
+  simp only
+  split
+  · rfl
+  · unfold sqOpenD; simp only; rw [byQid_notify]; rfl
+
+theorem byQid_sqOpenC (s : St) (q : Query) (srv : Server) (fd : Nat) : (sqOpenC s q srv fd).2.byQid = s.byQid := by
+  unfold sqOpenC
+  simp only
+  split <;> rfl
+
+theorem byQid_sqOpen (s : St) (q : Query) (srv : Server) : (sqOpen s q srv).2.byQid = s.byQid := by
+  unfold sqOpen
+  simp only
+  split
+  · rfl
+  · have hC := byQid_sqOpenC (sqOpenA (s.fault "socket").2 q srv) q srv (s.fault "socket").2.nextFd
+    generalize sqOpenC (sqOpenA (s.fault "socket").2 q srv) q srv (s.fault "socket").2.nextFd = rC at hC ⊢
+    obtain ⟨f1, sC⟩ := rC
+    simp only at hC ⊢
+    have hA : (sqOpenA (s.fault "socket").2 q srv).byQid = s.byQid := rfl
+    have hT := byQid_sqOpenT sC q srv (s.fault "socket").2.nextFd
+    cases f1 with
+    | none =>
+      simp only [Bool.false_eq_true, ↓reduceIte]
+      rw [hT, hC, hA]
+    | some e1 =>
+      simp only
+      split
+      · show sC.byQid = _; rw [hC, hA]
+      · rw [hT, hC, hA]
 
 end Cares.Chan
